@@ -568,6 +568,23 @@ impl C16 {
                                 ("skip(1)", fresh(&|it| it.skip(1).collect()), pairs[1..].to_vec()),
                                 ("step_by(2)", fresh(&|it| it.step_by(2).collect()), pairs.iter().step_by(2).cloned().collect()),
                             ];
+                            // the consuming adaptors a custom iterator may override as well: last, count, fold, and the
+                            // position after nth (the rest must continue with the following fold)
+                            let mut checks = checks;
+                            checks.push(("last", fresh(&|it| it.last().into_iter().collect()), vec![pairs[pairs.len() - 1].clone()]));
+                            checks.push(("skip(j).last", fresh(&|it| it.skip(j).last().into_iter().collect()), vec![pairs[pairs.len() - 1].clone()]));
+                            checks.push(("fold", fresh(&|it| it.fold(vec![], |mut acc, p| { acc.push(p); acc })), pairs.clone()));
+                            checks.push(("nth-then-rest", fresh(&|mut it| { let _ = it.nth(j); it.collect() }), pairs[j + 1..].to_vec()));
+                            checks.push(("peekable", fresh(&|it| { let mut pk = it.peekable(); let _ = pk.peek(); pk.collect() }), pairs.clone()));
+                            let counted = { rand::sim::uninstall(); let g2 = TapeGuard::install(&case.tape); let r = guarded(|| { let it = cv.split(&x); let hint = it.size_hint(); (hint, it.count()) }); std::mem::forget(g2); r };
+                            match counted {
+                                Err(msg) => rep.fail("panic", "kfold-iterator", format!("KFold(n={}, k={}).split().count() panicked: {}", n, k, msg)),
+                                Ok(((lo, hi), cnt)) => {
+                                    if cnt != pairs.len() || lo > pairs.len() || hi.map(|h| h < pairs.len()).unwrap_or(false) {
+                                        rep.fail("iterator-protocol", "kfold-iterator", format!("KFold(n={}, k={}, shuffle={}): split() has size_hint ({}, {:?}) and count() = {} but next() yields {} folds", n, k, case.shuffle, lo, hi, cnt, pairs.len()));
+                                    }
+                                }
+                            }
                             for (what, got, want) in checks {
                                 match got {
                                     Err(msg) => rep.fail("panic", "kfold-iterator", format!("KFold(n={}, k={}).split().{} panicked: {}", n, k, what, msg)),
@@ -1037,7 +1054,8 @@ impl Property for C16 {
                 let hi = if big { 300 } else { 64 };
                 let n = r.usize_in(2, hi);
                 let k = if r.chance(0.15) { n } else if r.chance(0.3) { 2 } else { r.usize_in(2, n.min(12)) };
-                let p = r.usize_in(1, 4);
+                // sometimes more columns than rows (wide data)
+                let p = if r.chance(0.1) { r.usize_in(5, 40) } else { r.usize_in(1, 4) };
                 let opsel = r.below(10);
                 let op = match opsel {
                     0..=2 => Op::KFold,
